@@ -149,10 +149,47 @@ Section K.
   (* ---- the invariant: the piece lists cover the board, the two piece components equal their scratch values ---- *)
   Definition cover (s : rep) : Prop :=
     forall sq, sq < 64 -> nthd (r_board s) sq 0 <> 0 -> In sq (nthd (r_lists s) (nthd (r_board s) sq 0) []).
+  Lemma NoDup_snoc {A} (l : list A) x : NoDup l -> ~ In x l -> NoDup (l ++ [x]).
+  Proof.
+    induction l as [|h t IH]; intros Hnd Hx; [constructor; [intros []|constructor]|]. inversion Hnd; subst. cbn. constructor.
+    - intro X. apply in_app_or in X as [X|[X|[]]]; [contradiction|subst; apply Hx; left; reflexivity].
+    - apply IH; [assumption|intro X; apply Hx; right; exact X].
+  Qed.
+
+  (* every list entry is a square that holds that piece, once: with [cover] the lists ARE the board (C07: material counts) *)
+  Definition lists_sound (s : rep) : Prop :=
+    forall pc, 1 <= pc <= 12 -> NoDup (nthd (r_lists s) pc []) /\
+      forall sq, In sq (nthd (r_lists s) pc []) -> sq < 64 /\ nthd (r_board s) sq 0 = pc.
   Definition piece_inv (s : rep) : Prop :=
     length (r_board s) = 64%nat /\ length (r_lists s) = 13%nat /\ (forall sq, sq < 64 -> nthd (r_board s) sq 0 < 13) /\
     cover s /\ k_piece (r_key s) = pk (r_lists s) /\ k_pawn (r_key s) = wkp (r_lists s) /\
-    k_piece (r_key s) = bkp (r_board s) /\ k_pawn (r_key s) = bkw (r_board s).
+    k_piece (r_key s) = bkp (r_board s) /\ k_pawn (r_key s) = bkw (r_board s) /\ lists_sound s.
+
+  (* list surgery keeps duplicates out and tells where the entries come from *)
+  Lemma replace_first_spec l x y : NoDup l -> ~ In y l ->
+    NoDup (replace_first l x y) /\ forall z, In z (replace_first l x y) -> z = y \/ (In z l /\ z <> x).
+  Proof.
+    induction l as [|h t IH]; intros Hnd Hy; [split; [constructor|intros z []]|].
+    inversion Hnd as [|? ? Hh Ht]; subst. cbn [replace_first]. destruct (h =? x) eqn:E.
+    - apply N.eqb_eq in E. subst h. split.
+      + constructor; [intro X; apply Hy; right; exact X|exact Ht].
+      + intros z [<-|Hz]; [left; reflexivity|]. right. split; [right; exact Hz|]. intro X. subst z. contradiction.
+    - apply N.eqb_neq in E. destruct (IH Ht (fun X => Hy (or_intror X))) as [A B]. split.
+      + constructor; [|exact A]. intro X. destruct (B h X) as [->|[X1 _]]; [apply Hy; left; reflexivity|contradiction].
+      + intros z [<-|Hz]; [right; split; [left; reflexivity|exact E]|]. destruct (B z Hz) as [->|[Z1 Z2]]; [left; reflexivity|right; split; [right; exact Z1|exact Z2]].
+  Qed.
+
+  Lemma swap_remove_spec l sq : NoDup l -> NoDup (swap_remove l sq) /\ forall z, In z (swap_remove l sq) -> In z l /\ z <> sq.
+  Proof.
+    intro Hnd. destruct (list_snoc l) as [->|[init [last ->]]]; [split; [constructor|intros z []]|].
+    rewrite swap_remove_snoc. assert (Hinit : NoDup init) by (apply NoDup_remove_1 in Hnd; rewrite app_nil_r in Hnd; exact Hnd).
+    assert (Hlast : ~ In last init).
+    { intro X. apply NoDup_remove_2 in Hnd. rewrite app_nil_r in Hnd. contradiction. }
+    destruct (replace_first_spec init sq last Hinit Hlast) as [A B]. split; [exact A|].
+    intros z Hz. destruct (N.eq_dec sq last) as [E|E].
+    - subst sq. rewrite replace_first_notin in Hz by exact Hlast. split; [apply in_or_app; left; exact Hz|]. intro X. subst z. contradiction.
+    - destruct (B z Hz) as [->|[Z1 Z2]]; [split; [apply in_or_app; right; left; reflexivity|congruence]|split; [apply in_or_app; left; exact Z1|exact Z2]].
+  Qed.
 
   Lemma nthd_upd_board (b : list N) i j x : length b = 64%nat -> i < 64 ->
     nthd (updN b i x) j 0 = if j =? i then x else nthd b j 0.
@@ -176,11 +213,11 @@ Section K.
 
   Lemma add_piece_inv s pc sq : piece_inv s -> 1 <= pc <= 12 -> sq < 64 -> nthd (r_board s) sq 0 = 0 -> piece_inv (add_piece zt s pc sq).
   Proof.
-    intros [Hb [Hl [Hc [Hcov [Hk [Hw [Hbk Hbw]]]]]]] Hpc Hsq Hempty.
+    intros [Hb [Hl [Hc [Hcov [Hk [Hw [Hbk [Hbw Hls]]]]]]]] Hpc Hsq Hempty.
     assert (Hb' : length (updN (r_board s) sq pc) = 64%nat) by (rewrite updN_length; exact Hb).
     assert (Hl' : forall x, length (updN (r_lists s) pc x) = 13%nat) by (intro x; rewrite updN_length; exact Hl).
     unfold piece_inv, add_piece, with_board, cover. cbn [r_board r_lists r_key].
-    split; [exact Hb'|]. split; [apply Hl'|]. split; [|split; [|split; [|split; [|split]]]].
+    split; [exact Hb'|]. split; [apply Hl'|]. split; [|split; [|split; [|split; [|split; [|split]]]]].
     - intros i Hi. rewrite nthd_upd_board by assumption. destruct (i =? sq); [lia|apply Hc; exact Hi].
     - intros i Hi. rewrite nthd_upd_board by assumption. destruct (i =? sq) eqn:E.
       + apply N.eqb_eq in E. subst i. intros _. rewrite nthd_upd_lists by (first [assumption|lia]). rewrite N.eqb_refl.
@@ -199,17 +236,27 @@ Section K.
       rewrite Hempty, cp0, (cp_toggle pc sq) by lia. rewrite Hbk. destruct (pc_kind pc =? PAWN); xor_solve.
     - destruct (bk_upd (r_board s) sq pc Hb Hsq) as [_ ->]. destruct (tgl_keys (r_key s) pc sq) as [_ ->].
       rewrite Hempty, cw0. unfold cw. rewrite Hbw. destruct (pc_kind pc =? PAWN); xor_solve.
+    - unfold lists_sound. cbn [r_board r_lists]. intros pc' Hpc'. destruct (Hls pc' Hpc') as [Hnd Hel]. rewrite nthd_upd_lists by (first [assumption|lia]).
+      destruct (pc' =? pc) eqn:E.
+      + apply N.eqb_eq in E. subst pc'. split.
+        * apply NoDup_snoc; [exact Hnd|]. intro X. destruct (Hel sq X) as [_ Y]. lia.
+        * intros x Hx. apply in_app_or in Hx as [Hx|[<-|[]]].
+          -- destruct (Hel x Hx) as [X1 X2]. split; [exact X1|]. rewrite nthd_upd_board by assumption.
+             destruct (x =? sq) eqn:E2; [apply N.eqb_eq in E2; subst x; lia|exact X2].
+          -- split; [exact Hsq|]. rewrite nthd_upd_board by assumption. rewrite N.eqb_refl. reflexivity.
+      + apply N.eqb_neq in E. split; [exact Hnd|]. intros x Hx. destruct (Hel x Hx) as [X1 X2]. split; [exact X1|].
+        rewrite nthd_upd_board by assumption. destruct (x =? sq) eqn:E2; [apply N.eqb_eq in E2; subst x; lia|exact X2].
   Qed.
 
   Lemma remove_piece_inv s sq : piece_inv s -> sq < 64 -> nthd (r_board s) sq 0 <> 0 -> piece_inv (remove_piece zt s sq).
   Proof.
-    intros [Hb [Hl [Hc [Hcov [Hk [Hw [Hbk Hbw]]]]]]] Hsq Hne.
+    intros [Hb [Hl [Hc [Hcov [Hk [Hw [Hbk [Hbw Hls]]]]]]]] Hsq Hne.
     set (pc := nthd (r_board s) sq 0) in *.
     assert (Hpc : 1 <= pc <= 12) by (pose proof (Hc sq Hsq); fold pc in H; lia).
     pose proof (Hcov sq Hsq Hne) as Hin. fold pc in Hin.
     assert (Hb' : length (updN (r_board s) sq 0) = 64%nat) by (rewrite updN_length; exact Hb).
     unfold piece_inv, remove_piece, with_board, cover. cbn [r_board r_lists r_key]. fold pc. change NO_PIECE with 0.
-    split; [exact Hb'|]. split; [rewrite updN_length; exact Hl|]. split; [|split; [|split; [|split; [|split]]]].
+    split; [exact Hb'|]. split; [rewrite updN_length; exact Hl|]. split; [|split; [|split; [|split; [|split; [|split]]]]].
     - intros i Hi. rewrite nthd_upd_board by assumption. destruct (i =? sq); [lia|apply Hc; exact Hi].
     - intros i Hi. rewrite nthd_upd_board by assumption. destruct (i =? sq) eqn:E; [intro X; contradiction X; reflexivity|].
       apply N.eqb_neq in E. intro Hn. rewrite nthd_upd_lists by (first [assumption|lia]).
@@ -226,18 +273,25 @@ Section K.
       fold pc. rewrite cp0, (cp_toggle pc sq) by lia. rewrite Hbk. destruct (pc_kind pc =? PAWN); xor_solve.
     - destruct (bk_upd (r_board s) sq 0 Hb Hsq) as [_ ->]. destruct (tgl_keys (r_key s) pc sq) as [_ ->].
       fold pc. rewrite cw0. unfold cw. rewrite Hbw. destruct (pc_kind pc =? PAWN); xor_solve.
+    - unfold lists_sound. cbn [r_board r_lists]. intros pc' Hpc'. destruct (Hls pc' Hpc') as [Hnd Hel]. rewrite nthd_upd_lists by (first [assumption|lia]).
+      destruct (pc' =? pc) eqn:E.
+      + apply N.eqb_eq in E. subst pc'. destruct (swap_remove_spec (nthd (r_lists s) pc []) sq Hnd) as [A B]. split; [exact A|].
+        intros x Hx. destruct (B x Hx) as [X1 X2]. destruct (Hel x X1) as [Y1 Y2]. split; [exact Y1|].
+        rewrite nthd_upd_board by assumption. rewrite (proj2 (N.eqb_neq x sq) X2). exact Y2.
+      + apply N.eqb_neq in E. split; [exact Hnd|]. intros x Hx. destruct (Hel x Hx) as [X1 X2]. split; [exact X1|].
+        rewrite nthd_upd_board by assumption. destruct (x =? sq) eqn:E2; [apply N.eqb_eq in E2; subst x; fold pc in X2; congruence|exact X2].
   Qed.
 
   Lemma move_piece_inv s from to : piece_inv s -> from < 64 -> to < 64 -> from <> to -> nthd (r_board s) from 0 <> 0 ->
     nthd (r_board s) to 0 = 0 -> piece_inv (move_piece zt s from to).
   Proof.
-    intros [Hb [Hl [Hc [Hcov [Hk [Hw [Hbk Hbw]]]]]]] Hf Ht Hft Hne Hempty.
+    intros [Hb [Hl [Hc [Hcov [Hk [Hw [Hbk [Hbw Hls]]]]]]]] Hf Ht Hft Hne Hempty.
     set (pc := nthd (r_board s) from 0) in *.
     assert (Hpc : 1 <= pc <= 12) by (pose proof (Hc from Hf); fold pc in H; lia).
     pose proof (Hcov from Hf Hne) as Hin. fold pc in Hin.
     assert (Hb1 : length (updN (r_board s) from 0) = 64%nat) by (rewrite updN_length; exact Hb).
     unfold piece_inv, move_piece, with_board, cover. cbn [r_board r_lists r_key]. fold pc. change NO_PIECE with 0.
-    split; [rewrite !updN_length; exact Hb|]. split; [rewrite updN_length; exact Hl|]. split; [|split; [|split; [|split; [|split]]]].
+    split; [rewrite !updN_length; exact Hb|]. split; [rewrite updN_length; exact Hl|]. split; [|split; [|split; [|split; [|split; [|split]]]]].
     - intros i Hi. rewrite !nthd_upd_board by assumption. destruct (i =? to); [lia|]. destruct (i =? from); [lia|apply Hc; exact Hi].
     - intros i Hi. rewrite !nthd_upd_board by assumption. destruct (i =? to) eqn:E.
       + apply N.eqb_eq in E. subst i. intros _. rewrite nthd_upd_lists by (first [assumption|lia]). rewrite N.eqb_refl.
@@ -263,13 +317,26 @@ Section K.
       destruct (tgl_keys (toggle_piece zt (r_key s) pc from) pc to) as [_ ->]. destruct (tgl_keys (r_key s) pc from) as [_ ->].
       rewrite nthd_updN_other by congruence. fold pc. rewrite Hempty, !cw0. unfold cw. rewrite Hbw.
       destruct (pc_kind pc =? PAWN); xor_solve.
+    - unfold lists_sound. cbn [r_board r_lists]. intros pc' Hpc'. destruct (Hls pc' Hpc') as [Hnd Hel]. rewrite nthd_upd_lists by (first [assumption|lia]).
+      destruct (pc' =? pc) eqn:E.
+      + apply N.eqb_eq in E. subst pc'.
+        assert (Hto : ~ In to (nthd (r_lists s) pc [])) by (intro X; destruct (Hel to X) as [_ Y]; lia).
+        destruct (replace_first_spec (nthd (r_lists s) pc []) from to Hnd Hto) as [A B]. split; [exact A|].
+        intros x Hx. rewrite !nthd_upd_board by assumption. destruct (B x Hx) as [->|[X1 X2]].
+        * split; [exact Ht|]. rewrite N.eqb_refl. reflexivity.
+        * destruct (Hel x X1) as [Y1 Y2]. split; [exact Y1|].
+          destruct (x =? to) eqn:E2; [apply N.eqb_eq in E2; subst x; lia|]. rewrite (proj2 (N.eqb_neq x from) X2). exact Y2.
+      + apply N.eqb_neq in E. split; [exact Hnd|]. intros x Hx. destruct (Hel x Hx) as [X1 X2]. split; [exact X1|].
+        rewrite !nthd_upd_board by assumption.
+        destruct (x =? to) eqn:E2; [apply N.eqb_eq in E2; subst x; lia|].
+        destruct (x =? from) eqn:E3; [apply N.eqb_eq in E3; subst x; fold pc in X2; congruence|exact X2].
   Qed.
 
   (* set_meta leaves board and lists alone: the invariant survives when the new key has the old piece components *)
   Lemma set_meta_inv s a b c d e k h : piece_inv s -> k_piece k = k_piece (r_key s) -> k_pawn k = k_pawn (r_key s) ->
     piece_inv (set_meta s a b c d e k h).
   Proof.
-    intros [Hb [Hl [Hc [Hcov [Hk [Hw [Hbk Hbw]]]]]]] E1 E2. unfold piece_inv, cover, set_meta. cbn [r_board r_lists r_key].
-    repeat split; try assumption; congruence.
+    intros [Hb [Hl [Hc [Hcov [Hk [Hw [Hbk [Hbw Hls]]]]]]]] E1 E2. unfold piece_inv, cover, set_meta. cbn [r_board r_lists r_key].
+    split; [exact Hb|]. split; [exact Hl|]. split; [exact Hc|]. split; [exact Hcov|]. split; [congruence|]. split; [congruence|]. split; [congruence|]. split; [congruence|]. exact Hls.
   Qed.
 End K.
